@@ -231,6 +231,43 @@ Definition fd_resolve (P : fd_params) (lb : nat) (g0 : option nat) (sts : list r
     let '(rs, n) := kloop (greedy P) (over P) (krange lb (upper (upper_excl P) (nedges P))) sts 0 in
     mkout rs n 0 lb.
 
+(* ---------------------------------------------------------------- subgraph-scanning lower bound
+   MinFlowDecomp._get_lowerbound_with_subgraph_scanning (option use_subgraph_scanning_lowerbound, graphs with
+   more than 21 nodes): for every window of 20 topologically consecutive nodes a NESTED MinFlowDecomp (same
+   options, scanning off, lowerbound_k = current bound) is solved; a window that is solved with k paths raises
+   the bound to max(bound, k); a window that is not solved contributes nothing.  Each window is a full
+   fd_solve (own MinGenSet / guessed-weights / main loop) consuming its own invocations. *)
+Fixpoint scan (mgs_skips exit_on_fail : bool) (ws : list fd_params) (sts : list raw) (bound n : nat) : lbres :=
+  match ws with
+  | [] => LB bound n
+  | W :: ws' =>
+      let o := fd_solve mgs_skips exit_on_fail W sts in
+      match so_res o with
+      | Starved => LStarved (n + used o)
+      | Exited => LExit (n + used o)
+      | Solved k => scan mgs_skips exit_on_fail ws' (skipn (used o) sts) (Nat.max bound k) (n + used o)
+      | _ => scan mgs_skips exit_on_fail ws' (skipn (used o) sts) bound (n + used o)
+      end
+  end.
+
+(* MinFlowDecomp.solve with the scanning option: MinGenSet models, then the windows, then (guessed-weights
+   model and) the main loop from max(lower bound so far, best window bound) *)
+Definition mfd_scan_solve (mgs_skips exit_on_fail : bool) (P : fd_params) (ws : list fd_params) (sts : list raw) : outcome :=
+  match lb_phase mgs_skips exit_on_fail (use_mgs P) (lb0 P) (nweights P) sts with
+  | LExit n => mkout Exited n n (lb0 P)
+  | LStarved n => mkout Starved n n (lb0 P)
+  | LB lb1 n1 =>
+      match scan mgs_skips exit_on_fail ws (skipn n1 sts) 0 0 with
+      | LExit n2 => mkout Exited (n1 + n2) (n1 + n2) lb1
+      | LStarved n2 => mkout Starved (n1 + n2) (n1 + n2) lb1
+      | LB b n2 =>
+          let lb2 := Nat.max lb1 b in
+          let r := fd_resolve (mkfd (lb0 P) (upper_excl P) (nedges P) (use_mgs P) (nweights P) (guessed P) (gw_paths P) (greedy P) never)
+                              lb2 None (skipn (n1 + n2) sts) in
+          mkout (so_res r) (n1 + n2 + used r) (n1 + n2 + aux r) lb2
+      end
+  end.
+
 (* MinFlowDecomp: no elapsed-time exit; MinGenSet failure -> exit(0) (switch) *)
 Definition mfd_solve (mgs_skips exit_on_fail : bool) (P : fd_params) (sts : list raw) : outcome :=
   fd_solve mgs_skips exit_on_fail
@@ -336,6 +373,13 @@ Definition run_mfdc (skips excl : bool) (lb0 ne : nat) (umgs : bool) (nw : nat) 
 Definition run_fd2 (excl : bool) (lb ne : nat) (gu : bool) (gw : nat) (g0 : option nat)
   (gr ov : list bool) (sts : list raw) : outcome :=
   fd_resolve (mkfd lb excl ne false 0 gu gw (of_list gr) (of_list ov)) lb g0 sts.
+(* windows as tuples (lb0, ne, use_mgs, nweights, guessed, gw_paths, greedy) *)
+Definition win_params (excl : bool) (w : nat * nat * bool * nat * bool * nat * list bool) : fd_params :=
+  let '(l0, ne, um, nw, gu, gw, gr) := w in mkfd l0 excl ne um nw gu gw (of_list gr) never.
+Definition run_mfd_scan (skips exits excl : bool) (lb0 ne : nat) (umgs : bool) (nw cuts : nat) (gu : bool) (gw : nat)
+  (gr : list bool) (ws : list (nat * nat * bool * nat * bool * nat * list bool)) (sts : list raw) : outcome :=
+  mfd_scan_solve skips exits (mkfd lb0 excl ne umgs (mgs_size nw cuts) gu gw (of_list gr) never)
+                 (map (win_params excl) ws) sts.
 Definition run_mpc (excl : bool) (lb ne : nat) (sts : list raw) : outcome := mpc_solve excl lb ne sts.
 Definition run_mpcc (excl : bool) (lb ne : nat) (sts : list raw) : outcome := mpcc_solve excl lb ne sts.
 Definition run_npo (ks km : nat) (ff : bool) (da dr : option Q) (ext : list bool) (obj : list Q)
